@@ -24,6 +24,9 @@ structure Tables where
   versionGate : List Exc
   validation : List Exc
   methodCall : List Exc
+  versionReplyFirst : Bool
+  validationReplyFirst : Bool
+  initReplyFirst : Bool
   attachMdDecode : List Exc
   attachGuard : List Exc
   attachConvert : List Exc
@@ -42,7 +45,8 @@ structure Tables where
 
 def Tables.gen : Tables :=
   { supers := Gen.C05.supers, serveLoop := Gen.C05.serveLoop, readRequestTry := Gen.C05.readRequestTry,
-    versionGate := Gen.C05.versionGate, validation := Gen.C05.validation, methodCall := Gen.C05.methodCall,
+    versionGate := Gen.C05.versionGate, validation := Gen.C05.validation, methodCall := Gen.C05.methodCall, versionReplyFirst := Gen.C05.versionReplyFirst,
+    validationReplyFirst := Gen.C05.validationReplyFirst, initReplyFirst := Gen.C05.initReplyFirst,
     attachMdDecode := Gen.C05.attachMdDecode, attachGuard := Gen.C05.attachGuard, attachConvert := Gen.C05.attachConvert, resolveConvert := Gen.C05.resolveConvert, firstRead := Gen.C05.firstRead,
     firstReadDrains := Gen.C05.firstReadDrainsOnIpcError, firstDrainSkips := Gen.C05.firstReadDrainSkips,
     firstDrainEnds := Gen.C05.firstReadDrainEnds, traceDecode := Gen.C05.traceDecode,
@@ -107,6 +111,10 @@ structure Req where
   asPy : Step                     -- `{f.name: column[0].as_py()}`
   -- dispatch
   isTransportOptions : Bool
+  streamNoHeader : Bool           -- the method is a stream without a declared header: its client sends an input IPC stream,
+                                  --   which the server drains (`_drain_refused_stream_input`) when it refuses the call
+  peerWaits : Bool                -- the peer writes the request and then waits for the reply before it writes anything else
+                                  --   (what the reference client does); false: the rest is already on the wire
   methodKnown : Bool
   versionCheck : Step             -- `_check_protocol_version`
   validate : Step                 -- `_deserialize_params` / `_validate_call_signature` / `_validate_params`
@@ -259,6 +267,11 @@ deriving Repr, DecidableEq
 /-- an exception that leaves `serve_one` without a reply: the loop `break`s or `serve` raises — the connection ends -/
 def escapes : Served := ⟨.silentStop, .none, false⟩
 
+/-- A refusal of a stream call.  `first`: the error stream is written before the server waits for the input stream.  If it
+is not, a header-less stream's lockstep peer and the server wait for each other. -/
+def refusal (first : Bool) (rq : Req) (s : Served) : Served :=
+  if rq.streamNoHeader && !first && rq.peerWaits then ⟨.hang, .none, false⟩ else s
+
 /-- `serve_one` inside the `serve` loop -/
 def serveOne (T : Tables) (rq : Req) : Served :=
   match readRequest T rq with
@@ -278,17 +291,19 @@ def serveOne (T : Tables) (rq : Req) : Served :=
     if rq.isTransportOptions then ⟨.replyContinue, .transportOptions, true⟩
     else if !rq.methodKnown then ⟨.replyContinue, .unknownMethod, true⟩
     else match rq.versionCheck with
-      | .raises e => if caught T T.versionGate e then ⟨.replyContinue, .protocolVersion, true⟩ else escapes
+      | .raises e => if caught T T.versionGate e then refusal T.versionReplyFirst rq ⟨.replyContinue, .protocolVersion, true⟩ else escapes
       | _ =>
       match rq.validate with
-      | .raises e => if caught T T.validation e then ⟨.replyContinue, .badParams, true⟩ else escapes
+      | .raises e => if caught T T.validation e then refusal T.validationReplyFirst rq ⟨.replyContinue, .badParams, true⟩ else escapes
       | _ =>
       -- data plane: `shm_cache.refresh(req_md, kind)` attaches the advertised segment when none is there yet
       match (if rq.staticShm then Ex.ok true else maybeAttach T rq) with
       | .raises _ => escapes
       | _ =>
       match rq.call with
-      | .raises e => if caught T T.methodCall e then ⟨.replyContinue, .methodError, true⟩ else ⟨.replyStop, .none, true⟩
+      | .raises e =>
+          if caught T T.methodCall e then refusal T.initReplyFirst rq ⟨.replyContinue, .methodError, true⟩
+          else ⟨.replyStop, .none, true⟩
       | _ => ⟨.replyContinue, .value, true⟩
 
 /-- the loop: requests are served while the connection lives -/
